@@ -159,6 +159,10 @@ def gen_atomistic(rng, n_target, rich=True, hyper=(), explicit_h=False):
                 continue
             a = rng.choice(cands)
             ring = [new_atom(("C", 0), arom=True) for _ in range(6)]
+            if rng.random() < 0.3:
+                # pyridine: one aromatic nitrogen (not the attachment atom); it has no free valence
+                k = rng.randrange(1, 6)
+                mol.atoms[ring[k]].update(el="N", cap=3)
             for k in range(6):
                 mol.add_bond(ring[k], ring[(k + 1) % 6], 1.5)
             mol.add_bond(a, ring[0], 1)
